@@ -2,7 +2,7 @@
 //@include inc/price.rs
 //@include inc/fee.rs
 // =================================================================================================
-// C04  A swap moves exactly the traded tokens and is all-or-nothing
+// C05  A swap never pays out more value than it takes in, beyond capped impact
 //      crates/model/src/action/swap.rs :: Swap::{try_execute, charge_fees, execute}
 //      crates/model/src/pool/delta.rs  :: Delta::{new, new_with_long, new_with_short, new_one_side, new_both_sides, long, short}
 //      crates/model/src/params/fee.rs  :: Fees accessors (FeeParams::apply_fees etc. are the C02 units, re-proved here)
@@ -19,14 +19,14 @@ pub enum PnlFactorKind { MaxAfterDeposit, MaxAfterWithdrawal, MaxForTrader, ForA
 pub struct Prices { pub index_token_price: Price, pub long_token_price: Price, pub short_token_price: Price }
 
 impl Fees {
-//@unit C04.Fees.fee_amount_for_receiver
+//@unit C05.Fees.fee_amount_for_receiver
 //@ file crates/model/src/params/fee.rs
 //@ within impl<T> Fees<T>
 //@ fn fee_amount_for_receiver
 //@ sig fn fee_amount_for_receiver(&self) -> &T
     pub fn fee_amount_for_receiver(&self) -> (r: &N) ensures *r == self.fee_amount_for_receiver
 //@body
-//@unit C04.Fees.fee_amount_for_pool
+//@unit C05.Fees.fee_amount_for_pool
 //@ file crates/model/src/params/fee.rs
 //@ within impl<T> Fees<T>
 //@ fn fee_amount_for_pool
@@ -40,28 +40,28 @@ impl Fees {
 #[derive(Clone, Copy)]
 pub struct Delta<'a> { pub long: Option<&'a S>, pub short: Option<&'a S> }
 impl<'a> Delta<'a> {
-//@unit C04.Delta.new
+//@unit C05.Delta.new
 //@ file crates/model/src/pool/delta.rs
 //@ within impl<T> Delta<T>
 //@ fn new
 //@ sig fn new(long: Option<T>, short: Option<T>) -> Self
     pub fn new(long: Option<&'a S>, short: Option<&'a S>) -> (r: Delta<'a>) ensures r.long == long, r.short == short
 //@body
-//@unit C04.Delta.new_with_long
+//@unit C05.Delta.new_with_long
 //@ file crates/model/src/pool/delta.rs
 //@ within impl<T> Delta<T>
 //@ fn new_with_long
 //@ sig fn new_with_long(amount: T) -> Self
     pub fn new_with_long(amount: &'a S) -> (r: Delta<'a>) ensures r.long == Some(amount), r.short.is_none()
 //@body
-//@unit C04.Delta.new_with_short
+//@unit C05.Delta.new_with_short
 //@ file crates/model/src/pool/delta.rs
 //@ within impl<T> Delta<T>
 //@ fn new_with_short
 //@ sig fn new_with_short(amount: T) -> Self
     pub fn new_with_short(amount: &'a S) -> (r: Delta<'a>) ensures r.short == Some(amount), r.long.is_none()
 //@body
-//@unit C04.Delta.new_one_side
+//@unit C05.Delta.new_one_side
 //@ file crates/model/src/pool/delta.rs
 //@ within impl<T> Delta<T>
 //@ fn new_one_side
@@ -69,7 +69,7 @@ impl<'a> Delta<'a> {
     pub fn new_one_side(is_long: bool, amount: &'a S) -> (r: Delta<'a>)
         ensures is_long ==> r.long == Some(amount) && r.short.is_none(), !is_long ==> r.short == Some(amount) && r.long.is_none()
 //@body
-//@unit C04.Delta.new_both_sides
+//@unit C05.Delta.new_both_sides
 //@ file crates/model/src/pool/delta.rs
 //@ within impl<T> Delta<T>
 //@ fn new_both_sides
@@ -123,6 +123,26 @@ pub proof fn lemma_impact_neg(usd: int, pmin: int)
     assert(tdiv(usd - pmin + 1, pmin) == -q);
     if q == 0 { lemma_basic_div(x, pmin); }
 }
+/// floor(x n / d) d <= x n
+pub proof fn lemma_floor_le(x: int, n: int, d: int)
+    requires x >= 0, n >= 0, d > 0
+    ensures mul_div_floor(x, n, d) * d <= x * n, mul_div_floor(x, n, d) >= 0
+{
+    lemma_mul_nonnegative(x, n);
+    lemma_fundamental_div_mod(x * n, d); lemma_mod_bound(x * n, d); lemma_mul_is_commutative(d, (x * n) / d);
+    lemma_div_pos_is_pos(x * n, d);
+}
+/// the value bound of a swap with positive impact
+pub proof fn lemma_positive_swap_value(af: int, cd: int, pool_out: int, pia: int, pin_min: int, pin_max: int, pout_max: int, capped: int, impact: int)
+    requires af >= 0, cd >= 0, pia >= 0, 0 <= pin_min <= pin_max, pout_max > 0,
+        pool_out == mul_div_floor(af + cd, pin_min, pout_max), cd * pin_max <= capped, pia * pout_max + capped <= impact
+    ensures (pool_out + pia) * pout_max <= af * pin_min + impact
+{
+    lemma_floor_le(af + cd, pin_min, pout_max);
+    lemma_mul_is_distributive_add_other_way(pin_min, af, cd);
+    lemma_mul_inequality(pin_min, pin_max, cd); lemma_mul_is_commutative(cd, pin_min); lemma_mul_is_commutative(cd, pin_max);
+    lemma_mul_is_distributive_add_other_way(pout_max, pool_out, pia);
+}
 /// Carrier for `M: SwapMarket(+Mut)`: the three pools a swap touches (+ the optional virtual inventory) and the reads
 pub struct SMarket { pub liquidity: Sides, pub swap_impact: Sides, pub claimable_fee: Sides, pub virtual_inventory: Option<Sides>, pub fee_params: Option<FeeParams> }
 /// what the market holds of one token: liquidity + swap impact pool + claimable fees
@@ -153,7 +173,7 @@ impl SMarket {
     #[verifier::external_body]
     pub fn swap_impact_value(&self, delta: &PoolDelta, include_virtual_inventory_impact: bool) -> (r: Result<PriceImpact, E>)
     { unimplemented!() }
-//@unit C04.SwapMarketExt.swap_impact_amount_with_cap
+//@unit C05.SwapMarketExt.swap_impact_amount_with_cap
 //@ file crates/model/src/market/swap.rs
 //@ within pub trait SwapMarketExt<const DECIMALS: u8>: SwapMarket<DECIMALS>
 //@ fn swap_impact_amount_with_cap
@@ -187,14 +207,14 @@ impl SMarket {
 #[derive(Clone, Copy)]
 pub struct SwapParams { pub is_token_in_long: bool, pub token_in_amount: N, pub prices: Prices }
 impl SwapParams {
-//@unit C04.SwapParams.long_token_price
+//@unit C05.SwapParams.long_token_price
 //@ file crates/model/src/action/swap.rs
 //@ within impl<T> SwapParams<T>
 //@ fn long_token_price
 //@ sig fn long_token_price(&self) -> &Price<T>
     pub fn long_token_price(&self) -> (r: &Price) ensures *r == self.prices.long_token_price
 //@body
-//@unit C04.SwapParams.short_token_price
+//@unit C05.SwapParams.short_token_price
 //@ file crates/model/src/action/swap.rs
 //@ within impl<T> SwapParams<T>
 //@ fn short_token_price
@@ -208,8 +228,19 @@ impl Price {
     pub fn mid(&self) -> (r: N) { unimplemented!() }
 }
 
+//@struct crates/model/src/action/swap.rs :: struct ReassignedValues<T: Unsigned> :: long_token_delta_value, T, short_token_delta_value, T, token_in_price, token_out_price, long_pnl_factor_kind, short_pnl_factor_kind
 pub struct ReassignedValues { pub long_token_delta_value: S, pub short_token_delta_value: S, pub token_in_price: Price, pub token_out_price: Price,
                               pub long_pnl_factor_kind: PnlFactorKind, pub short_pnl_factor_kind: PnlFactorKind }
+impl ReassignedValues {
+//@unit C05.ReassignedValues.new
+//@ file crates/model/src/action/swap.rs
+//@ within impl<T: Unsigned> ReassignedValues<T>
+//@ fn new
+//@ sig fn new( long_token_delta_value: T::Signed, short_token_delta_value: T::Signed, token_in_price: Price<T>, token_out_price: Price<T>, long_pnl_factor_kind: PnlFactorKind, short_pnl_factor_kind: PnlFactorKind, ) -> Self
+    fn new(long_token_delta_value: S, short_token_delta_value: S, token_in_price: Price, token_out_price: Price, long_pnl_factor_kind: PnlFactorKind, short_pnl_factor_kind: PnlFactorKind) -> (r: ReassignedValues)
+        ensures r.token_in_price == token_in_price, r.token_out_price == token_out_price
+//@body
+}
 //@struct crates/model/src/action/swap.rs :: struct SwapResult<Unsigned, Signed> :: token_in_fees, token_out_amount, price_impact_value, price_impact_amount
 pub struct SwapResult { pub token_in_fees: Fees, pub token_out_amount: N, pub price_impact_value: S, pub price_impact_amount: N }
 //@struct crates/model/src/action/swap.rs :: pub struct SwapReport<Unsigned, Signed> :: params, result
@@ -228,13 +259,28 @@ impl Cache {
 }
 pub open spec fn cache_holdings(c: Cache, is_long: bool) -> int { side(c.liquidity, is_long) + side(c.swap_impact, is_long) + side(c.claimable_fee, is_long) }
 
+/// out <= floor(token_in * price_in_min / price_out_max) + pia, i.e. out * price_out_max <= token_in * price_in_min + pia * price_out_max
+pub open spec fn swap_out_bound(out: int, pout_max: int, token_in: int, pin_min: int, pia: int) -> bool { out * pout_max <= token_in * pin_min + pia * pout_max }
 pub struct Swap { pub market: SMarket, pub params: SwapParams }
+/// price of the input / output token, fees charged on the input
+pub open spec fn pin_of(w: Swap) -> Price { if w.params.is_token_in_long { w.params.prices.long_token_price } else { w.params.prices.short_token_price } }
+pub open spec fn pout_of(w: Swap) -> Price { if w.params.is_token_in_long { w.params.prices.short_token_price } else { w.params.prices.long_token_price } }
+pub open spec fn fees_of(r: SwapResult) -> int { r.token_in_fees.fee_amount_for_pool@ + r.token_in_fees.fee_amount_for_receiver@ }
 impl Swap {
-    /// ASSUMED: arbitrary (prices and delta values for the impact computation; not needed for conservation)
-    #[verifier::external_body]
-    fn reassign_values(&self) -> (r: Result<ReassignedValues, E>) { unimplemented!() }
+//@unit C05.Swap.reassign_values
+//@ file crates/model/src/action/swap.rs
+//@ within impl<const DECIMALS: u8, M: SwapMarketMut<DECIMALS>> Swap<M, DECIMALS>
+//@ fn reassign_values
+//@ sig fn reassign_values(&self) -> crate::Result<ReassignedValues<M::Num>>
+//@ sub let (long|short)_delta_value: M::Signed = self\s*\.params\s*\.token_in_amount\s*\.checked_mul\(&self\.params\.(long|short)_token_price\(\)\.mid\(\)\)\s*\.ok_or\(E::Computation\)\?\s*\.try_into\(\) => let \1_delta_value: S = S::try_from(self.params.token_in_amount.checked_mul(&self.params.\2_token_price().mid()).ok_or(E::Computation)?)
+    fn reassign_values(&self) -> (r: Result<ReassignedValues, E>)
+        ensures
+            // the input token's price is the price of the side the swap comes in on; the output token's price is the other one
+            r.is_ok() ==> r.unwrap().token_in_price == (if self.params.is_token_in_long { self.params.prices.long_token_price } else { self.params.prices.short_token_price })
+                && r.unwrap().token_out_price == (if self.params.is_token_in_long { self.params.prices.short_token_price } else { self.params.prices.long_token_price }),
+//@body
 
-//@unit C04.Swap.charge_fees
+//@unit C05.Swap.charge_fees
 //@ file crates/model/src/action/swap.rs
 //@ within impl<const DECIMALS: u8, M: SwapMarketMut<DECIMALS>> Swap<M, DECIMALS>
 //@ fn charge_fees
@@ -245,37 +291,34 @@ impl Swap {
             r.is_ok() ==> r.unwrap().0@ + r.unwrap().1.fee_amount_for_pool@ + r.unwrap().1.fee_amount_for_receiver@ == self.params.token_in_amount@,
 //@body
 
-//@unit C04.Swap.try_execute
+//@unit C05.Swap.try_execute
 //@ file crates/model/src/action/swap.rs
 //@ within impl<const DECIMALS: u8, M: SwapMarketMut<DECIMALS>> Swap<M, DECIMALS>
 //@ fn try_execute
 //@ sig fn try_execute( &self, ) -> crate::Result<( Cache<'_, M, DECIMALS>, SwapResult<M::Num, <M::Num as Unsigned>::Signed>, )>
 //@ sub market: &self\.market,\n =>
+//@ before token_out_amount = pool_amount_out.checked_add :: proof { lemma_positive_swap_value(amount_after_fees@, capped_diff_token_in_amount@, pool_amount_out@, price_impact_amount@, token_in_price.min@, token_in_price.max@, token_out_price.max@, capped_diff_value@, price_impact@); }
+//@ before pool_amount_out = token_out_amount.clone(); :: proof { lemma_floor_le(token_in_amount@, token_in_price.min@, token_out_price.max@); lemma_mul_inequality(token_in_amount@, amount_after_fees@, token_in_price.min@); }
 //@ sub assert\(!signed_price_impact_amount\.is_negative\(\)\); => assert(signed_price_impact_amount@ >= 0);
 //@ sub assert\(!capped_diff_token_in_amount\.is_negative\(\)\); => assert(capped_diff_token_in_amount@ >= 0);
 //@ sub assert\(!signed_price_impact_amount\.is_positive\(\)\); => assert(signed_price_impact_amount@ <= 0);
     fn try_execute(&self) -> (r: Result<(Cache, SwapResult), E>)
+        requires
+            // validated prices: min <= max on both tokens (Prices::validate at try_new)
+            self.params.prices.long_token_price.min@ <= self.params.prices.long_token_price.max@,
+            self.params.prices.short_token_price.min@ <= self.params.prices.short_token_price.max@,
         ensures
-            // the new pools hold exactly the input amount more of the input token ...
-            r.is_ok() ==> cache_holdings(r.unwrap().0, self.params.is_token_in_long) == holdings(self.market, self.params.is_token_in_long) + self.params.token_in_amount@,
-            // ... and exactly the amount paid out less of the output token
-            r.is_ok() ==> cache_holdings(r.unwrap().0, !self.params.is_token_in_long) == holdings(self.market, !self.params.is_token_in_long) - r.unwrap().1.token_out_amount@,
-            r.is_ok() ==> (r.unwrap().0.virtual_inventory.is_some() ==> self.market.virtual_inventory.is_some()),
+            // value out at the MAX output price <= value in (after fees) at the MIN input price + the positive price impact, of which
+            // only what the swap impact pool of the output token holds is paid in output tokens
+            r.is_ok() ==> pout_of(*self).max@ != 0 && fees_of(r.unwrap().1) <= self.params.token_in_amount@,
+            r.is_ok() && r.unwrap().1.price_impact_value@ > 0 ==> r.unwrap().1.price_impact_amount@ <= side(self.market.swap_impact, !self.params.is_token_in_long),
+            r.is_ok() && r.unwrap().1.price_impact_value@ > 0 ==> r.unwrap().1.token_out_amount@ * pout_of(*self).max@
+                <= (self.params.token_in_amount@ - fees_of(r.unwrap().1)) * pin_of(*self).min@ + r.unwrap().1.price_impact_value@,
+            r.is_ok() && r.unwrap().1.price_impact_value@ <= 0 ==> r.unwrap().1.token_out_amount@ * pout_of(*self).max@
+                <= (self.params.token_in_amount@ - fees_of(r.unwrap().1)) * pin_of(*self).min@,
+            // with zero fees and zero impact: the input converted at the least favourable prices, rounded down
+            r.is_ok() && r.unwrap().1.price_impact_value@ == 0 && fees_of(r.unwrap().1) == 0 ==> r.unwrap().1.token_out_amount@ == mul_div_floor(self.params.token_in_amount@, pin_of(*self).min@, pout_of(*self).max@),
 //@body
 
-//@unit C04.Swap.execute
-//@ file crates/model/src/action/swap.rs
-//@ within impl<const DECIMALS: u8, M> MarketAction for Swap<M, DECIMALS>
-//@ fn execute
-//@ sig fn execute(mut self) -> crate::Result<Self::Report>
-    fn execute(&mut self) -> (r: Result<SwapReport, E>)
-        ensures
-            // a successful swap increases the holdings of the input token by exactly the input amount and decreases the holdings
-            // of the output token by exactly the amount paid out
-            r.is_ok() ==> holdings(final(self).market, old(self).params.is_token_in_long) == holdings(old(self).market, old(self).params.is_token_in_long) + old(self).params.token_in_amount@,
-            r.is_ok() ==> holdings(final(self).market, !old(self).params.is_token_in_long) == holdings(old(self).market, !old(self).params.is_token_in_long) - r.unwrap().result.token_out_amount@,
-            // a failed swap leaves every pool of the market unchanged
-            r.is_err() ==> final(self).market == old(self).market,
-//@body
 }
 } // verus!
